@@ -32,3 +32,4 @@ def run(ctx):
     S.r04_9_duplicate_keys(ctx)
     S.r04_4_no_dynamic_lookup(ctx)
     S.r03_8_whole_node(ctx)
+    S.r01_6_deep_recheck(ctx)
